@@ -29,6 +29,10 @@ class C14(Prop):
                 ops.append(mk('dect %s b%s' % (t, body.hex()), k='notag', body=body.hex(), t=t, tagnum=None))
                 ops.append(mk('dect %s b%s' % (t, (refcbor.head(6, tag) * 2 + body).hex()), k='double', body=body.hex(), t=t, tagnum=-1))
                 ops.append(mk('dec %s b%s' % (t, (refcbor.head(6, tag) + body).hex()), k='untagged-on-tagged', t=t, must_reject=True))
+                # the body wrapped in a byte string is not the body (informed round 9: the tagged decoder unwrapped it)
+                wb = refcbor.head(2, len(body)) + body
+                ops.append(mk('dect %s b%s' % (t, (refcbor.head(6, tag) + wb).hex()), k='bstr-body', t=t, must_reject=True)); ops.append(mk('dec %s b%s' % (t, wb.hex()), k='bstr-body', t=t, must_reject=True))
+                ops.append(mk('dect %s b%s' % (t, (refcbor.head(6, tag) + refcbor.head(2, len(wb) + 0) + refcbor.head(6, tag) + body)[:0].hex() + (refcbor.head(6, tag) + refcbor.head(2, len(refcbor.head(6, tag) + body)) + refcbor.head(6, tag) + body).hex()), k='bstr-body', t=t, must_reject=True))
                 for tg in tags:
                     # any tag in front of the body is rejected by untagged decoding; any second tag (outside or inside) by tagged decoding
                     ops.append(mk('dec %s b%s' % (t, (refcbor.head(6, tg) + body).hex()), k='untagged-on-tag%d' % tg, t=t, must_reject=True))
@@ -155,6 +159,11 @@ class C16(Prop):
         ints = sorted(set(s * x for x in (0, 1, 2, 23, 24, 25, 255, 256, 257, 65535, 65536, 65537, 2**32 - 1, 2**32, 2**32 + 1, 2**63 - 1) for s in (1, -1)) | {-2**63, -2**63 + 1} | {-x - 1 for x in (23, 24, 255, 256, 65535, 65536, 2**32 - 1, 2**32)})
         texts = [b'', b'a', b'b', b'aa', b'ab', b'ba', b'z', b'a' * 23, b'a' * 24, b'b' * 23, b'a' * 255, b'a' * 256, b'a' * 254 + b'b', 'é'.encode(), 'ée'.encode(), b'zz', '€'.encode(), b'a' * 22 + b'\xc3\xa9', '\uff211'.encode(), '\U0001f600'.encode(), '\ue000x'.encode(), '\U00010000'.encode(), b'A', b'Z', b'B', b'1', b'10', b'2', b'-1']
         labs = ['i%d' % i for i in ints] + ['t' + t.hex() for t in texts]
+        # long texts that differ only after 2^16 bytes, or only in length beyond it (informed round 9: comparison through a u16 range)
+        longs = ['t' + (b'a' * 69999 + b'b').hex(), 't' + (b'a' * 69999 + b'c').hex(), 't' + (b'a' * 65536 + b'b').hex(), 't' + (b'a' * 65535 + b'b').hex(), 't' + (b'a' * 65536).hex(), 't' + (b'a' * 70001).hex()]
+        for a in longs:
+            for b in longs:
+                ops.append(mk('cmp Label %s %s' % (a, b), k='label', a=a, b=b)); ops.append(mk('cmpc %s %s' % (a, b), k='canon', a=a, b=b))
         pairs = list(itertools.product(labs, labs))
         if tier != 'thorough': pairs = r.sample(pairs, min(len(pairs), 3500)) + [(a, a) for a in labs]
         for a, b in pairs:
@@ -219,6 +228,22 @@ class C17(Prop):
         for i in list(range(-65540, -65530)) + [-7, 8, 0]:
             e = refcbor.encode(('int', i)).hex()
             ops += [mk('dec Header ba101' + e, k='field'), mk('dec CoseKey ba2010103' + e, k='field'), mk('dec ClaimsSet ba1' + e + 'f6', k='field'), mk('dec Header ba10281' + e, k='field'), mk('dec CoseKey ba101' + e, k='field')]
+        # a list-typed field is accepted only if *every* element is: one invalid element at any index refuses the whole
+        # (informed round 9: `flatten()` over the converted elements dropped the failing ones after the first)
+        bad = [refcbor.encode(('int', 8)).hex(), refcbor.encode(('int', -70000)).hex(), '4101', 'f6', refcbor.encode(('int', 2**63)).hex()]
+        for b_ in bad:
+            for arr in ('82' + '01' + b_, '82' + b_ + '01', '83' + '6178' + '04' + b_, '83' + '01' + b_ + '04', '81' + b_):
+                ops.append(mk('dec Header ba102' + arr, k='list-mixed')); ops.append(mk('dec CoseSign1 b8440a102' + arr + 'f640', k='list-mixed'))
+                ops.append(mk('dec CoseSign1 b84' + refcbor.head(2, 2 + len(arr) // 2).hex() + 'a102' + arr + 'a0f640', k='list-mixed'))
+                ops.append(mk('dec CoseKey ba2010104' + arr.replace(refcbor.encode(('int', 8)).hex(), '1863') if b_ == '08' else 'dec CoseKey ba2010104' + arr, k='list-mixed'))
+        for good, bad_ in (('8340a040', '8340a0'), ('8340a040', '00'), ('8340a040', '8340a000')):
+            for arr in ('82' + good + bad_, '82' + bad_ + good, '83' + good + good + bad_):
+                ops.append(mk('dec CoseSign b8440a0f6' + arr, k='list-mixed')); ops.append(mk('dec Header ba107' + arr, k='list-mixed'))
+        for good, bad_ in (('8340a0f6', '8340a0'), ('8340a0f6', '8340a000'), ('8340a0f6', '40')):
+            for arr in ('82' + good + bad_, '82' + bad_ + good, '83' + good + good + bad_):
+                ops.append(mk('dec CoseEncrypt b8440a0f6' + arr, k='list-mixed')); ops.append(mk('dec CoseMac b8540a0f640' + arr, k='list-mixed')); ops.append(mk('dec CoseRecipient b8440a0f6' + arr, k='list-mixed'))
+        for arr in ('82a10101a0', '82a0a10101', '83a10101a1010140', '82a1010100'):
+            ops.append(mk('dec CoseKeySet b' + arr, k='list-mixed'))
         for t in ('1', '2', '4', '60', '-7', '3', '+2'):
             e = refcbor.encode(('text', t.encode())).hex()
             ops += [mk('chain CoseKey ba101' + e, k='field-text'), mk('chain CoseKey ba201040481' + e, k='field-text'), mk('chain CoseKey ba20104048201' + e, k='field-text'), mk('chain Header ba10281' + e, k='field-text'),
@@ -229,6 +254,7 @@ class C17(Prop):
         if 'want' in m and impl != m['want']: return 'conversion differs from the registry table in the source (extractor / macro drift)'
         if m.get('k') == 'priv' and impl != ('T' if m['i'] < -65536 else 'F'): return 'private-use predicate is not "below -65536"'
         if m.get('k') == 'numeric-text' and impl != 'ok X' + m['text'].encode().hex(): return 'a text label was not kept as text'
+        if m.get('k') == 'list-mixed' and impl.startswith('ok'): return 'a list with an unacceptable element was accepted'
         return None
 
 # ===================================================================== C18
@@ -262,6 +288,14 @@ class C18(Prop):
             ops.append(mk('chain ClaimsSet b' + b.hex(), k='claims'))
         for v in tsv: ops.append(mk('fromv Timestamp ' + vsx(v), k='timestamp'))
         slot = [('null',), B(b''), B(b'ab'), I(5), I(-1), I(2**63), Tx(b'x'), ('array', []), ('map', []), ('bool', True)]
+        # a byte string holding the *encoding* of a valid sub-structure is not that sub-structure (informed rounds 8/9)
+        WRAPPED = [B(bytes.fromhex('820040')), B(bytes.fromhex('82188043a10126')), B(bytes.fromhex('83f6f6f6')), B(bytes.fromhex('83414101f6')), B(bytes.fromhex('a10101'))]
+        for w_ in WRAPPED:
+            for pos in range(4):
+                a_ = [I(1), ('array', [('null',)] * 3), ('array', [('null',)] * 3), ('array', [I(0), B(b'')])]; a_[pos] = w_
+                ops.append(mk('dec CoseKdfContext b' + refcbor.encode(('array', a_)).hex(), k='wrapped'))
+            ops.append(mk('dec SuppPubInfo b' + refcbor.encode(w_).hex(), k='wrapped')); ops.append(mk('dec PartyInfo b' + refcbor.encode(w_).hex(), k='wrapped'))
+            ops.append(mk('dec ClaimsSet b' + refcbor.encode(w_).hex(), k='wrapped')); ops.append(mk('dec CoseKeySet b' + refcbor.encode(('array', [w_])).hex(), k='wrapped'))
         for _ in range(budget(tier, 3000, 60000)):
             def party():
                 n = r.choice([3, 3, 3, 3, 0, 1, 2, 4, 5]); return ('array', [r.choice(slot[:5] if r.random() < 0.8 else slot) for _ in range(n)])
@@ -396,6 +430,9 @@ class C20(Prop):
             + ['i%d' % i for i in list(range(-24, 0)) + list(range(-64, -24)) + [-256, -257, -1000, -65536, -65537, -2**32, -2**32 - 1]] \
             + ['t' + bytes([c]).hex() for c in range(0x61, 0x7b)] + ['t' + bytes([c, d]).hex() for c in (0x61, 0x62, 0x7a) for d in (0x61, 0x6d, 0x7a)] \
             + ['t' + (bytes([c]) * 3).hex() for c in range(0x61, 0x67)] + ['tc3a9', 'te282ac', 'tf09f9880']
+        for pa, pb in (('t' + (b'a' * 69999 + b'c').hex(), 't' + (b'a' * 69999 + b'b').hex()), ('t' + (b'a' * 65536 + b'z').hex(), 't' + (b'a' * 65536 + b'b').hex())):
+            for o in ('lex', 'len'):
+                ops.append(mk('canon %s (key A1 b - (ops) b (params %s N %s N i9 N))' % (o, pa, pb), k='canon', order=o, gen='labels of 65-70k bytes sharing all but the last byte'))
         for n in (13, 20, 21, 32, 33, 34, 40, 50, 64, 65, 100, 150) + ((200,) if tier == 'quick' else (200, 300)):
             for _ in range(budget(tier, 3, 12)):
                 k = keyform(r.sample(pool, min(n, len(pool))))
